@@ -87,6 +87,11 @@ func (o *Obs) judgeAlways() (fs []finding) {
 	if o.R == "ok" && !o.Committed {
 		add("success-uncommitted", "the renter reports success but the host never broadcast")
 	}
+	// agreement: unless the final message itself was cut or corrupted, a contract the host has
+	// formed (recorded and broadcast) is a contract the renter reports as formed
+	if f := o.Desc.Fault; o.Committed && o.R != "ok" && !strings.HasSuffix(f, "4") && !strings.HasPrefix(f, "m4") {
+		add("host-formed-renter-failed", "the host recorded and broadcast the contract but the renter reports failure (%q) and has released its inputs", o.RErr)
+	}
 	if o.DHCon > 1 || o.DHCon < 0 {
 		add("host-contract-count", "the host recorded %d contracts in one attempt", o.DHCon)
 	}
@@ -691,6 +696,9 @@ func driveOne(res *hx.Result, tw *hx.TraceWriter, tr int64, tlen int, stub strin
 		d := Desc{Kind: driverKinds[rng.Intn(len(driverKinds))], PV: "ok", Basis: driverBases[rng.Intn(len(driverBases))], Inp: "conf", Fault: "none"}
 		if rng.Intn(4) == 0 {
 			d.Inp = "unconf"
+			if d.Basis != "same" && rng.Intn(2) == 0 {
+				d.Inp = "unconfc"
+			}
 		}
 		forceReps := false
 		switch x := rng.Intn(10); {
